@@ -26,6 +26,67 @@ PROGRAMS = [
 ]
 
 
+def generated_programs(tier):
+    """scope nestings of depth 1..3 below the module over {function, class}, x bound (or not) at every level before
+    the nested definition, and four forms of the innermost use: plain, lambda, comprehension, bare-name parameter
+    default (evaluated at def time in the defining scope, observed through the parameter)"""
+    import itertools
+    out = []
+    counter = [2000]
+    depths = (1, 2, 3)
+    forms = ('plain', 'lambda', 'comp', 'default')
+    for depth in depths:
+        for nest in itertools.product('FC', repeat=depth):
+            for bound in itertools.product((False, True), repeat=depth + 1):
+                if not any(bound):
+                    continue
+                # quick tier: all nestings, a sample of binding patterns
+                idx = sum(1 << i for i, b in enumerate(bound) if b)
+                if tier == 'quick' and depth == 3 and idx % 3 != 1:
+                    continue
+                for form in forms:
+                    if tier == 'quick' and depth >= 2 and form in ('lambda', 'comp') and idx % 2 == 0:
+                        continue
+                    lines = []
+                    site = [0]
+
+                    def emit(ind, text):
+                        lines.append('    ' * ind + text)
+
+                    def bind(ind):
+                        counter[0] += 1
+                        emit(ind, 'x = %d' % counter[0])
+                    if bound[0]:
+                        bind(0)
+                    ind = 0
+                    for lvl, kind in enumerate(nest, 1):
+                        if kind == 'F':
+                            emit(ind, 'def f%d():' % lvl)
+                        else:
+                            emit(ind, 'class C%d:' % lvl)
+                        ind += 1
+                        if bound[lvl]:
+                            bind(ind)
+                    site[0] += 1
+                    if form == 'plain':
+                        emit(ind, 'observe(%d, x)' % site[0])
+                    elif form == 'lambda':
+                        emit(ind, '(lambda: observe(%d, x))()' % site[0])
+                    elif form == 'comp':
+                        emit(ind, '[observe(%d, x) for _ in (0,)]' % site[0])
+                    else:
+                        emit(ind, 'def g(p=x):')
+                        emit(ind + 1, 'observe(%d, p)' % site[0])
+                        emit(ind, 'g()')
+                    # call the functions (class bodies run by themselves), innermost first on the way out
+                    for lvl in range(len(nest), 0, -1):
+                        ind -= 1
+                        if nest[lvl - 1] == 'F':
+                            emit(ind, 'f%d()' % lvl)
+                    out.append('\n'.join(lines) + '\n')
+    return out
+
+
 def analyse(code):
     tree = ast.parse(code)
     parents = {}
@@ -62,13 +123,16 @@ def run(repo, seed, tier):
     import jedi
     violations = []
     evaluations = 0
-    for code in PROGRAMS:
+    generated = generated_programs(tier)
+    for code in PROGRAMS + generated:
         straight = code.startswith('#S')
         tree, parents, scope_of, effective_scope = analyse(code)
         seen = []
         ns = {'observe': lambda site, v: seen.append((site, v))}
         try:
             exec(compile(code, '<prog>', 'exec'), ns)
+        except NameError:
+            pass        # a use Python itself cannot resolve: the uses executed before it still count
         except Exception:
             violations.append({'label': 'generated program does not run', 'input': repr(code), 'observed': traceback.format_exc(limit=2)})
             continue
@@ -93,6 +157,14 @@ def run(repo, seed, tier):
             use = uses[site]
             if value not in const_pos:
                 continue
+            if use.id == 'p':
+                # observed through a parameter whose default is a bare name: the use is that default expression,
+                # evaluated when the def statement ran
+                fn = scope_of(use)
+                if isinstance(fn, ast.FunctionDef) and fn.args.defaults and isinstance(fn.args.defaults[0], ast.Name):
+                    use = fn.args.defaults[0]
+                else:
+                    continue
             bind_const = const_pos[value]
             bscope = scope_of(bind_const)
             evaluations += 1
@@ -148,8 +220,10 @@ def run(repo, seed, tier):
         seen_l.setdefault(v['label'], []).append(v)
     return {'name': 'C03.scoping', 'contract': 'C03.goto',
             'evaluations': evaluations, 'distinct_nontrivial': evaluations,
-            'rule': '%d executable programs (module/function/closure/class body/comprehension/lambda nesting; rebinding, '
-                    'global, nonlocal, parameters and defaults, for targets) with unique values per binding; every '
-                    'executed use' % len(PROGRAMS),
+            'rule': '%d hand-written executable programs (module/function/closure/class body/comprehension/lambda nesting; '
+                    'rebinding, global, nonlocal, parameters and defaults, for targets) + %d generated nestings (depth 1-3 '
+                    'over {def, class}, x bound or not at every level, innermost use plain / in a lambda / in a '
+                    'comprehension / as bare-name parameter default) with unique values per binding; every executed use'
+                    % (len(PROGRAMS), len(generated)),
             'samples': PROGRAMS[:2], 'violations': violations[:300],
             'violation_counts': {k: len(v) for k, v in seen_l.items()}}
